@@ -1,6 +1,7 @@
 """C41 — parallel map processes every item exactly once (structural necessary conditions)."""
 import ast
 
+from ..core import generic as G
 from ..core import astutil as A
 from ..core import match as M
 from ..core import cfg as CFG
@@ -24,7 +25,23 @@ def run(ctx):
     # ---- R1 sentinel ------------------------------------------------------------------------------
     ps = iq.params()
     got = M.one(iq.node, f"$item = {ps[1]}.get()")
-    ctx.require(got is not None, "iter_queue: item = <queue>.get() not found")
+    if got is None:
+        # a get() with a timeout / non-blocking get: the only way a worker may stop is the stop marker, so an empty queue
+        # must send it back to waiting (continue / retry), never out of the loop
+        got = M.one(iq.node, f"$item = {ps[1]}.get(...)")
+        ctx.require(got is not None, "iter_queue: item = <queue>.get(...) not found")
+        leaves = []
+        for t in [n for n in A.body_walk(iq.node) if isinstance(n, ast.Try) and A.contains_node(n, got.node)]:
+            for h in t.handlers:
+                for x in ast.walk(h):
+                    if isinstance(x, (ast.Break, ast.Return)) or (isinstance(x, ast.Raise)):
+                        leaves.append(x)
+        unhandled = not any(isinstance(n, ast.Try) and A.contains_node(n, got.node) for n in A.body_walk(iq.node))
+        ctx.check("R1", iq, not leaves and not unhandled, "worker-stops-only-on-marker",
+                  "an empty queue sends the worker back to waiting; only the stop marker ends it",
+                  f"iter_queue takes items with `{A.unparse(got.node.value)}` and leaves its loop when the queue is momentarily empty "
+                  f"({'`' + A.unparse(leaves[0]) + '` in the Empty handler' if leaves else 'queue.Empty is not handled'}): a worker that outpaces the feeder quits for good, "
+                  f"items queued afterwards are never processed and map_async still returns normally", node=got.node)
     itemv = got["item"]
     cmpn = [n for n in A.walk(iq.node) if isinstance(n, ast.Compare) and isinstance(n.ops[0], (ast.Is, ast.Eq, ast.IsNot, ast.NotEq)) and A.unparse(n.left) == itemv]
     ctx.require(len(cmpn) == 1, "iter_queue: stop-marker test not found")
@@ -123,6 +140,10 @@ def run(ctx):
     km = M.one(ma.node, "$kill = threading.Event()")
     ctx.check("R4", ma, km is not None and any(M.has(h.body, "$kill.set()\nraise", km.env) for h in hs), "feed-failure-stops-workers", "a failing feed sets the kill flag and re-raises (after the finally woke and joined the workers)")
     ctx.floor("R4", 5)
+
+    # ---- R6 one failing package does not retire the worker thread ----------------------------------------------------
+    G.per_item_isolation(ctx, "R6", "pkgcore.operations.regen", "regen_iter", lambda c: isinstance(c.func, ast.Name) and c.func.id == P.func("pkgcore.operations.regen", "regen_iter").params()[1], "package")
+    ctx.floor("R6", 1)
 
 
 F = "src/pkgcore/util/thread_pool.py"
